@@ -158,6 +158,33 @@ Definition ext_case_ok (c : ext_case) : bool :=
   && zl_eqb (outlet_rows 0 (pos_of_blocks 0 (first_blocks (ec_secs c))) (pos_of_blocks 0 (last_blocks (ec_secs c)))
                          (ec_conn c) (ec_switched c) (ec_v_last c) (ec_old c)) (ec_res_last c).
 
+(* ------------------------------------------------------------------ set_fixed_node_entries (one call, fresh counters) *)
+(* juncts, val_sum, number = _sum_by_group(junctions, values, ones); index = lookup[juncts];
+   pit[index, val] = (pit[index, val] * pit[index, count] + val_sum) / (number + pit[index, count]);
+   pit[index, count] += number; pit[index, type] = P *)
+Definition fixed_code (use_numba : bool) (js juncts vals old : list Z) : list Z * list Z :=
+  let r := sbg_cols_Z use_numba true juncts [vals; map (fun _ => 1) juncts] in
+  let lk := mk_index_lookup js 0 in
+  let index := map (fun k => Z.to_nat (sget lk k)) (fst r) in
+  let sums := nth 0 (snd r) [] in
+  let num := nth 1 (snd r) [] in
+  (index_assign index (map (fun p : Z * Z => fst p / snd p) (combine sums num)) old,
+   index_assign index num (map (fun _ => 0) old)).
+
+(* the property: the junction in table row r is fixed to the mean of the values given for ITS label *)
+Definition fixed_spec (js juncts vals old : list Z) : list Z * list Z :=
+  let cnt := fun l => Z.of_nat (count_occ Z.eq_dec juncts l) in
+  (map (fun lo : Z * Z => if cnt (fst lo) =? 0 then snd lo else sum_pairs 0 Z.add (fst lo) (combine juncts vals) / cnt (fst lo))
+       (combine js old),
+   map cnt js).
+
+Record fx_case := { fx_numba : bool; fx_js : list Z; fx_juncts : list Z; fx_vals : list Z; fx_old : list Z;
+                    fx_val : list Z; fx_count : list Z }.
+Definition fx_case_ok (c : fx_case) : bool :=
+  let m := fixed_code (fx_numba c) (fx_js c) (fx_juncts c) (fx_vals c) (fx_old c) in
+  let sp := fixed_spec (fx_js c) (fx_juncts c) (fx_vals c) (fx_old c) in
+  zl_eqb (fst m) (fx_val c) && zl_eqb (snd m) (fx_count c) && zl_eqb (fst sp) (fx_val c) && zl_eqb (snd sp) (fx_count c).
+
 Record pit_case := {
   pc_js : list Z; pc_tab : wtable; pc_int_start : Z;
   pc_elm : list Z; pc_ft : list (Z * Z) }.
